@@ -10,11 +10,11 @@ From Goag Require Import Base.Str Model.Router Model.Serve Spec.RouterSpec Spec.
    prologue) returns exactly what OpenAPI path matching prescribes: the
    pref_lt-least template that matches segment for segment beneath the
    normalised base path and has an operation for the method; nothing
-   otherwise.  [cors_ok]: the CORS handler is installed or CORS is not enabled
-   (the nil-handler corner is C17's). *)
-Theorem C03_route_eq_match : forall (s : rspec) (cfg : api_cfg) (path m : str),
-  wf_rspec s -> cors_ok s cfg ->
-  route_root (c_cors cfg) (gen_base s) (gen_tree s) path m
+   otherwise.  (The route functions do not depend on whether a CORS handler is
+   installed; what is served for a preflight entry without one is C17's.) *)
+Theorem C03_route_eq_match : forall (s : rspec) (path m : str),
+  wf_rspec s ->
+  route_root true (gen_base s) (gen_tree s) path m
   = match_request (gen_templates s) (declared_base s) path m.
 Proof. exact gen_route_match. Qed.
 Print Assumptions C03_route_eq_match.
